@@ -407,7 +407,8 @@ def write_replay(ctx, problems, no_input):
     body = dict(property=ctx.prop, tier=ctx.tier, seed=ctx.seed,
                 failing_input_found=not no_input,
                 no_longer_checks=[p.what for p in problems if not p.failing_input][:20],
-                problems=[p.as_dict() for p in problems[:40]],
+                problems=[p.as_dict() for p in ([q for q in problems if q.failing_input][:30]
+                                                 + [q for q in problems if not q.failing_input][:10])],
                 how_to_replay='run `cmd` of a problem (from /verif/harness, harness binaries in target/debug) and pipe it into '
                               '/verif/lean/.lake/build/bin/driver; the `line` is the case as the implementation produced it')
     h = hashlib.sha256(json.dumps(body, sort_keys=True).encode()).hexdigest()[:12]
